@@ -140,6 +140,10 @@ def execute(scn):
            'runs': 0}
     with runner.Workspace() as ws:
         r0 = common.install(ws, P, sts, 0, scn['rows'])
+        if getattr(r0, 'rows_rejected', None):
+            stats['rows_rejected'] = 1
+            res['runs'] = ws.nruns
+            return res
         if r0.status != 'ok':
             stats['install_failed'] = 1
             return res
